@@ -1072,7 +1072,16 @@ fn drive_task(fut: impl Future<Output = ()> + 'static, cap: u64) -> bool {
     done.get()
 }
 
+/// Runs one scenario in *this* process. Callers that need run-to-run isolation of the library's
+/// process-global state (registry, context-id counter, `RandomState` keys) wrap the whole
+/// per-run work in `crate::isolate::isolated`, which executes it in a forked child.
 pub fn run_scenario(sc: &Scenario) -> RunOutput {
+    run_scenario_here(sc)
+}
+
+fn run_scenario_here(sc: &Scenario) -> RunOutput {
+    // the one hook in /repo (cfg hannibal_verif): every run starts with context id 0
+    hannibal::__verif_reset_context_ids();
     crate::log::reset();
     RETAINED.with(|r| r.borrow_mut().clear());
     let scn = Arc::new(sc.clone());
